@@ -16,3 +16,11 @@ pub fn vx_vec_from_slice(s: &[R]) -> (v: Vec<R>) ensures v@ == s@ { Vec::from(s)
 pub uninterp spec fn table_spec(id: int) -> Seq<Vec<(R, R)>>;
 #[verifier::external_body]
 pub fn vx_table(id: u8) -> (t: &'static Vec<Vec<(R, R)>>) ensures t@ == table_spec(id as int) { unimplemented!() }
+// Iterator::any over a slice of reals with its full meaning (vstd only states `result ==> some element satisfies`);
+// rule R24 routes `v.iter().any(c)` here
+#[verifier::external_body]
+pub fn vx_any<F: Fn(&R) -> bool>(v: &Vec<R>, f: F) -> (r: bool)
+    requires forall|i: int| 0 <= i < v@.len() ==> f.requires((&#[trigger] v@[i],))
+    ensures r ==> exists|i: int| 0 <= i < v@.len() && f.ensures((&#[trigger] v@[i],), true),
+            !r ==> forall|i: int| 0 <= i < v@.len() ==> f.ensures((&#[trigger] v@[i],), false),
+{ v.iter().any(f) }
